@@ -83,6 +83,9 @@ pub struct RaceCase {
     ///    let an indexing worker start a new segment, release;
     /// 1: hold an indexing worker at its n-th file creation, run explicit GC (and commit + implicit GC), release;
     /// 2: hold a merge thread at its n-th file creation, run explicit GC and a commit, release
+    /// 3: hold a reader of a second Index handle inside its reload while everything is merged and collected
+    /// 4: hold the segment updater inside the metadata write that publishes a merge, drop the writer, open a new writer,
+    ///    add and commit with it, release
     pub kind: u8,
     pub nth: u8,
     pub adds_during: Vec<AddSpec>,
@@ -111,12 +114,12 @@ impl Sub for Races {
             c
         });
         let prefix_op = prop_oneof![8 => add_strategy().prop_map(Op::Add), 1 => any::<u16>().prop_map(Op::DelUid), 3 => Just(Op::Commit)];
-        (cfg, prop::collection::vec(prefix_op, 2..20), 0u8..4, 0u8..6, prop::collection::vec(add_strategy(), 1..5), prop::collection::vec(op_strategy(false), 0..8))
+        (cfg, prop::collection::vec(prefix_op, 2..20), 0u8..5, 0u8..6, prop::collection::vec(add_strategy(), 1..5), prop::collection::vec(op_strategy(false), 0..8))
             .prop_map(|(cfg, prefix, kind, nth, adds_during, suffix)| RaceCase { cfg, prefix, kind, nth, adds_during, suffix })
             .boxed()
     }
     fn mandatory_labels(&self, _t: Tier) -> Vec<&'static str> {
-        vec!["race:gc_queued_behind_commit", "race:gc_while_worker_writes_segment", "race:gc_while_merge_writes_segment", "race:gc_while_reader_loads", "reader_held_at_meta_lock", "reader_held_at_segment_file_open", "gate_reached", "unpublished_files_existed_during_gc"]
+        vec!["race:gc_queued_behind_commit", "race:gc_while_worker_writes_segment", "race:gc_while_merge_writes_segment", "race:gc_while_reader_loads", "race:old_updater_task_after_writer_drop", "old_updater_held_at_writer_drop", "reader_held_at_meta_lock", "reader_held_at_segment_file_open", "gate_reached", "unpublished_files_existed_during_gc"]
     }
     fn run(&self, c: &RaceCase, cx: &Ctx) -> CaseResult {
         let mut env = Env::new(c.cfg.clone())?;
@@ -242,6 +245,37 @@ impl Sub for Races {
                     r?;
                     ensure!(merged.is_ok(), "merge_failed_while_reader_held", "the merge failed while a reader was held in its reload");
                     env.verify("after_merge_with_reader_held")?;
+                }
+            }
+            4 => {
+                // the end of a merge (segment manager updated, meta.json about to be written, files about to be collected)
+                // is in progress on the updater thread when the writer is dropped: whatever the old updater still does
+                // afterwards, the work of the NEXT writer must stay intact
+                cx.label("race:old_updater_task_after_writer_drop");
+                let ids = env.index.searchable_segment_ids().or_fail("segment_ids_failed")?;
+                if ids.len() >= 2 {
+                    let gate = sd.add_gate(GateSpec { thread: "segment_updater".into(), kind: Some(K::AtomicWrite), path_suffix: "meta.json".into(), nth: 0, max_hold: Duration::from_millis(250) });
+                    let fut = env.writer.as_mut().unwrap().merge(&ids);
+                    reached = sd.wait_reached(gate, Duration::from_millis(300));
+                    cx.label_if(reached, "old_updater_held_at_writer_drop");
+                    // drop: the writer lock is released
+                    drop(env.writer.take());
+                    let still_held = sd.gate_pending(gate);
+                    env.new_writer()?;
+                    for a in &c.adds_during {
+                        env.apply(&Op::Add(a.clone()), cx)?;
+                    }
+                    env.apply(&Op::Commit, cx)?;
+                    unpublished = reached;
+                    cx.label_if(reached && still_held && sd.gate_pending(gate), "new_writer_committed_while_old_updater_held");
+                    sd.release(gate);
+                    let _ = fut.wait();
+                    // let the old updater's task finish (metadata write + its garbage collection)
+                    let t0 = std::time::Instant::now();
+                    while t0.elapsed() < Duration::from_millis(30) {
+                        std::thread::yield_now();
+                    }
+                    env.verify("after_old_updater_task")?;
                 }
             }
             _ => {
